@@ -53,11 +53,14 @@ var kinds = []Kind{
 	{"xa-rollback-unretryable", branch.BranchTypeXA, false, branch.BranchStatusPhasetwoRollbackFailedUnretryable, false, "jdbc:mysql://db2/x", false},
 	{"at-commit-unknown-resource-error", branch.BranchTypeAT, true, branch.BranchStatusPhasetwoCommitFailedUnretryable, true, "jdbc:mysql://nowhere/zz", false},
 	{"tcc-rollback-ok", branch.BranchTypeTCC, false, branch.BranchStatusPhasetwoRollbacked, false, "tccAction", false},
+	{"at-commit-error-with-success-status", branch.BranchTypeAT, true, branch.BranchStatusPhasetwoCommitted, true, "jdbc:mysql://db1/a", false},
+	{"xa-rollback-error-with-success-status", branch.BranchTypeXA, false, branch.BranchStatusPhasetwoRollbacked, true, "jdbc:mysql://db2/x", false},
 	{"saga-commit-no-manager", branch.BranchTypeSAGA, true, branch.BranchStatusPhasetwoCommitted, true, "jdbc:mysql://db1/a", true},
 	{"saga-rollback-no-manager", branch.BranchTypeSAGA, false, branch.BranchStatusPhasetwoRollbacked, true, "tccAction", true},
 }
 
-const firstNoMgr = 8 // index of the first kind without a manager
+const firstNoMgr = 10     // index of the first kind without a manager
+const firstErrSuccess = 8 // index of the first kind whose manager fails but hands back a success status
 
 type Req struct {
 	Kind     int    `json:"kind"`
@@ -71,14 +74,16 @@ type Scenario struct {
 	Name    string `json:"name"`
 	Reqs    []Req  `json:"reqs"`
 	Pending bool   `json:"pending"` // a client request with the same message id as request 0 is waiting for its reply meanwhile
-	Bound   int    `json:"bound"`
+	// FailWrite n > 0: the n-th write on the session is refused (the session stays open and healthy otherwise)
+	FailWrite int `json:"fail_write,omitempty"`
+	Bound     int `json:"bound"`
 }
 
 func scenarios(thorough bool) []Scenario {
 	var out []Scenario
 	nk := 6
 	if thorough {
-		nk = firstNoMgr
+		nk = firstErrSuccess
 	}
 	bound := 2
 	if thorough {
@@ -116,6 +121,22 @@ func scenarios(thorough bool) []Scenario {
 			out = append(out, Scenario{Name: fmt.Sprintf("%s|%s|no-manager", kinds[n].Name, kinds[a].Name), Bound: bound, Reqs: []Req{
 				{Kind: n, MsgID: 7001, Xid: "10.0.0.9:8091:5001", BranchID: 11, Data: `{"k":"a"}`},
 				{Kind: a, MsgID: 7002, Xid: "10.0.0.9:8091:5001", BranchID: 12, Data: `{"k":"b"}`}}})
+		}
+	}
+	// a manager that fails and hands back a success status next to the error, beside an ordinary request
+	for n := firstErrSuccess; n < firstNoMgr; n++ {
+		for a := 0; a < 3; a++ {
+			out = append(out, Scenario{Name: fmt.Sprintf("%s|%s|error-with-success-status", kinds[n].Name, kinds[a].Name), Bound: bound, Reqs: []Req{
+				{Kind: n, MsgID: 7001, Xid: "10.0.0.9:8091:5001", BranchID: 11, Data: `{"k":"a"}`},
+				{Kind: a, MsgID: 7002, Xid: "10.0.0.9:8091:5001", BranchID: 12, Data: `{"k":"b"}`}}})
+		}
+	}
+	// one refused write of a reply: the other branch's reply is still written
+	for a := 0; a < nk; a++ {
+		for _, fw := range []int{1, 2} {
+			out = append(out, Scenario{Name: fmt.Sprintf("%s|%s|write-refused-%d", kinds[a].Name, kinds[(a+2)%nk].Name, fw), Bound: bound, FailWrite: fw, Reqs: []Req{
+				{Kind: a, MsgID: 7001, Xid: "10.0.0.9:8091:5001", BranchID: 11, Data: `{"k":"a"}`},
+				{Kind: (a + 2) % nk, MsgID: 7002, Xid: "10.0.0.9:8091:5002", BranchID: 12, Data: `{"k":"b"}`}}})
 		}
 	}
 	// a client request waiting under the same message id as the coordinator's request
@@ -201,8 +222,8 @@ type session struct {
 	h **harness
 }
 
-func (s *session) IsClosed() bool                         { return false }
-func (s *session) Close()                                 {}
+func (s *session) IsClosed() bool                         { h := *s.h; h.mu.Lock(); defer h.mu.Unlock(); return h.closed }
+func (s *session) Close()                                 { h := *s.h; h.mu.Lock(); h.closed = true; h.mu.Unlock() }
 func (s *session) RemoteAddr() string                     { return "10.0.0.9:8091" }
 func (s *session) LocalAddr() string                      { return "127.0.0.1:40000" }
 func (s *session) Stat() string                           { return "c15-session" }
@@ -216,11 +237,21 @@ func (s *session) WritePkg(pkg interface{}, _ time.Duration) (int, int, error) {
 	}
 	h := *s.h
 	h.mu.Lock()
+	if h.closed {
+		h.mu.Unlock()
+		return 0, 0, fmt.Errorf("c15: session closed")
+	}
+	h.writes++
+	refused := h.sc.FailWrite > 0 && h.writes == h.sc.FailWrite
+	// (a refused write still counts as the client's attempt to reply: the comparison below is about what the client tried to say)
 	h.sent = append(h.sent, msg)
 	sched := h.sched
 	h.mu.Unlock()
 	if sched != nil {
 		sched.Point("WritePkg-return")
+	}
+	if refused {
+		return 0, 0, fmt.Errorf("c15: write refused (timeout)")
 	}
 	return 1, 1, nil
 }
@@ -232,6 +263,8 @@ type harness struct {
 	calls  []call
 	sent   []message.RpcMessage
 	panics []string
+	writes int
+	closed bool
 }
 
 var (
